@@ -28,61 +28,30 @@ Fixpoint all2 {A B} (f : A -> B -> bool) (a : list A) (b : list B) : bool :=
   end.
 
 (* exhaustive check of one order: [hs] lists the index of every cell, cell
-   number i = x * side^(D-1) + ... (x-major).  Bijection onto [0, Q^n): every
-   index 0..Q^n-1 is found (and the list has Q^n entries); continuity: cells of
-   consecutive indices differ by one on one axis; recurrence against [hps]. *)
-Definition cell_of (D side i : N) : list N :=
-  if D =? 2 then [i / side; i mod side] else [i / (side * side); (i / side) mod side; i mod side].
-Fixpoint adj_list (a b : list N) : bool :=
-  match a, b with
-  | x :: a', y :: b' =>
-    if x =? y then adj_list a' b'
-    else ((x + 1 =? y) || (y + 1 =? x)) && list_eqb N.eqb a' b'
-  | _, _ => false
-  end.
-Definition index_map (hs : list N) : PositiveMap.t N :=
-  snd (fold_left (fun acc h => (fst acc + 1, PositiveMap.add (N.succ_pos h) (fst acc) (snd acc))) hs (0, PositiveMap.empty N)).
-Fixpoint walk (D side : N) (m : PositiveMap.t N) (k : nat) (h : N) : bool :=
-  match k with
-  | O => true
-  | S k' =>
-    match PositiveMap.find (N.succ_pos h) m, PositiveMap.find (N.succ_pos (h + 1)) m with
-    | Some i, Some j => adj_list (cell_of D side i) (cell_of D side j) && walk D side m k' (h + 1)
-    | _, _ => false
-    end
-  end.
-Definition parent_pos (D side i : N) : N :=
-  let hs := side / 2 in
-  match cell_of D side i with
-  | [x; y] => (x / 2) * hs + y / 2
-  | [x; y; z] => ((x / 2) * hs + y / 2) * hs + z / 2
-  | _ => 0
-  end.
-Definition check_all (D order : N) (hs hps : list N) : bool :=
+   number = x * side + y (resp. (x * side + y) * side + z), [hps] the same one
+   order lower.  The table is read back as a function of the cell and
+   [check_table2/3] (Model/Hilbert.v) runs the per-cell check at EVERY cell: it
+   accepts every indexing that has the property (Proofs/HilbertChecker.v), and
+   if every cell passes, walking predecessors / successors from any cell visits
+   every index, so the table is a bijection with adjacent consecutive cells. *)
+Definition table_of (hs : list N) : PositiveMap.t N :=
+  snd (fold_left (fun acc h => (fst acc + 1, PositiveMap.add (N.succ_pos (fst acc)) h (snd acc)))
+                 hs (0, PositiveMap.empty N)).
+(* a missing entry reads as 2^64: out of range for every accepted order *)
+Definition lookup (m : PositiveMap.t N) (i : N) : N :=
+  match PositiveMap.find (N.succ_pos i) m with Some h => h | None => two64 end.
+Definition check_all2 (order : N) (hs hps : list N) : bool :=
   let side := 2 ^ order in
-  let total := 2 ^ (D * order) in
-  let m := index_map hs in
-  (N.of_nat (length hs) =? total)
-  && match PositiveMap.find 1%positive m with Some _ => true | None => false end
-  && walk D side m (N.to_nat (total - 1)) 0
-  && ((order =? 0) ||
-      let parr := snd (fold_left (fun acc h => (fst acc + 1, PositiveMap.add (N.succ_pos (fst acc)) h (snd acc)))
-                                 hps (0, PositiveMap.empty N)) in
-      snd (fold_left (fun acc h =>
-             (fst (acc) + 1,
-              snd acc && match PositiveMap.find (N.succ_pos (parent_pos D side (fst acc))) parr with
-                         | Some hp => h / 2 ^ D =? hp
-                         | None => false
-                         end)) hs (0, true))).
-
-Definition all_cells2 (order : N) : list (N * N) :=
+  let m := table_of hs in let mp := table_of hps in
+  (N.of_nat (length hs) =? side * side)
+  && check_table2 order (fun c => lookup m (fst c * side + snd c))
+                        (fun c => lookup mp (fst c * (side / 2) + snd c)).
+Definition check_all3 (order : N) (hs hps : list N) : bool :=
   let side := 2 ^ order in
-  let r := map N.of_nat (seq 0 (N.to_nat side)) in
-  flat_map (fun x => map (fun y => (x, y)) r) r.
-Definition all_cells3 (order : N) : list (N * N * N) :=
-  let side := 2 ^ order in
-  let r := map N.of_nat (seq 0 (N.to_nat side)) in
-  flat_map (fun x => flat_map (fun y => map (fun z => (x, y, z)) r) r) r.
+  let m := table_of hs in let mp := table_of hps in
+  (N.of_nat (length hs) =? side * side * side)
+  && check_table3 order (fun c => let '(x, y, z) := c in lookup m ((x * side + y) * side + z))
+                        (fun c => let '(x, y, z) := c in lookup mp ((x * (side / 2) + y) * (side / 2) + z)).
 
 Definition eval08 (c : case08) : verdict :=
   match c with
@@ -111,10 +80,10 @@ Definition eval08 (c : case08) : verdict :=
     {| corr_ok := corr; prop_ok := prop; cls := 3 |}
   | KAll2 order hs hps =>
     let corr := all2 (fun p h' => okN (encode_2d (fst p) (snd p) order) h') (all_cells2 order) hs in
-    {| corr_ok := corr; prop_ok := check_all 2 order hs hps; cls := 4 |}
+    {| corr_ok := corr; prop_ok := check_all2 order hs hps; cls := 4 |}
   | KAll3 order hs hps =>
     let corr := all2 (fun p h' => let '(a, b, c) := p in okN (encode_3d a b c order) h') (all_cells3 order) hs in
-    {| corr_ok := corr; prop_ok := check_all 3 order hs hps; cls := 5 |}
+    {| corr_ok := corr; prop_ok := check_all3 order hs hps; cls := 5 |}
   | KSeg mn mx order vs o =>
     let fmn := f64_of_bits mn in let fmx := f64_of_bits mx in
     let fvs := map (fun b => f64_of_bits b) vs in
